@@ -133,6 +133,14 @@ def oracle(sch, txs, io, mo):
                 out.append(("C04:rejected-op-changed-state", "a rolled-back transaction changed entities, fk fields or back-references: +%s -%s" % (
                     sorted(fa - fp)[:4], sorted(fp - fa)[:4]), k))
                 break
+            if same_pre and b is not None and b["results"] and b["results"][-1] == "FUEL" and a["results"] and a["results"][-1] == "err" \
+                    and len(a["results"]) == len(b["results"]):
+                # a cascade delete over a reference cycle: the repaired code refuses it with an error instead of
+                # deleting the cycle (the property asks for the cascade); recorded as a known finding
+                n = len(a["results"]) - 1
+                if n < len(ops) and ops[n][0] == "D":
+                    out.append(("C04:cascade-cycle-refused", "delete of %s %r, which sits on a reference cycle under CascadeDelete, is refused with an "
+                                "error instead of deleting the referrers" % (ops[n][1], unhex(ops[n][2])), k))
             if same_pre:
                 # a delete refused with an unclassified error where the property demands success or a reference-exists refusal
                 ra, rb = a["results"], [("err" if r == "FUEL" else r) for r in b["results"]]
